@@ -265,10 +265,15 @@ def run(chk, repo):
     def selected(n, zero_exp):
         out_ = []
         for l_ in plv:
-            vals = [holds(c_, n, zero_exp) for c_, pol_ in l_.conds]
-            if any(v_ is None for v_ in vals):
-                raise AnalysisError("Poly.__pow__: guard not interpretable: %s" % [unparse(c_) for c_, _ in l_.conds])
-            if all(v_ == pol_ for v_, (c_, pol_) in zip(vals, l_.conds)):
+            taken = True
+            for c_, pol_ in l_.conds:
+                v_ = holds(c_, n, zero_exp)
+                if v_ is None:
+                    raise AnalysisError("Poly.__pow__: guard not interpretable: %s" % unparse(c_))
+                if v_ != pol_:
+                    taken = False
+                    break
+            if taken:
                 out_.append(l_)
         return out_
     def ret_of(l_):
